@@ -5,6 +5,7 @@ import random
 import numpy as np
 
 import common
+import oracle_sim
 import impl
 import c01
 import c03
@@ -143,5 +144,24 @@ def check(rep, tier):
             continue
         rep.case("lockstep %d" % ri, nontrivial=True)
         c03.compare(rep, cfg, S, L)
+        if ri % 2 == 0:
+            # the same object run again (same program, other seed): controlled nucleation fires once in THIS run too
+            cfg2 = dict(cfg, seed=cfg["seed"] + 3)
+            try:
+                with impl.quiet():
+                    S.seed = cfg2["seed"]
+                    L2 = oracle_sim.Lockstep(cfg2, S, None, rng)
+                    wrap2 = lambda g: fr.ScriptedRng(g, L2.script)
+                    S._rng = wrap2(S._rng)
+                    with fr.patched_rng(wrap2):
+                        S.run()
+                L2.finish()
+                nv = len(rep.violations)
+                rep.case("lockstep %d rerun" % ri, nontrivial=True); rep.count("rerun-same-object")
+                c03.compare(rep, cfg2, S, L2)
+                for v in rep.violations[nv:]:
+                    v["key"] = "rerun " + v["key"]; v["what"] = "second run() of the same object with controlled nucleation: " + v["what"]
+            except Exception as e:
+                rep.violation("crash %s" % type(e).__name__, "second scripted run raises %r for %s" % (e, cfg), dict(config=cfg, error=repr(e)))
     if not ok:
         rep.violation("proof-broken", "proof obligations of C10 do not check: " + msg, dict(theorem="props/C10.v", log=msg), found_input=False)
